@@ -5,5 +5,5 @@ CONSTANTS
   MaxSamples = 3
   MedianVals = {1, 2, 3, 5}
   MaxMedianOps = 6
-INVARIANTS MedianOfLastThree Conservation NoDivisionByZero LargestUnitThatFits SplitOK EmitCase
+INVARIANTS IsAnAverage MedianOfLastThree Conservation NoDivisionByZero LargestUnitThatFits SplitOK EmitCase
 CHECK_DEADLOCK FALSE
